@@ -74,6 +74,13 @@ var arbFieldOptions = []string{
 	"(buf.validate.field).ignore = IGNORE_ALWAYS",
 	"(buf.validate.field) = {ignore: IGNORE_IF_UNPOPULATED, repeated: {items: {string: {min_len: 1}}}}",
 	"(buf.validate.field) = {ignore: IGNORE_IF_UNPOPULATED, string: {min_len: 1}}",
+	"(buf.validate.field) = {ignore: IGNORE_IF_UNPOPULATED, repeated: {min_items: 1}}",
+	"(buf.validate.field) = {ignore: IGNORE_IF_UNPOPULATED, repeated: {}}",
+	"(buf.validate.field) = {ignore: IGNORE_IF_UNPOPULATED, map: {min_pairs: 1}}",
+	"(buf.validate.field) = {ignore: IGNORE_IF_UNPOPULATED, map: {keys: {string: {min_len: 1}}}}",
+	"(buf.validate.field) = {ignore: IGNORE_IF_DEFAULT_VALUE, repeated: {max_items: 2}}",
+	"(buf.validate.field).ignore = IGNORE_IF_UNPOPULATED",
+	"(buf.validate.field) = {required: true, ignore: IGNORE_IF_UNPOPULATED}",
 	"(j5.ext.v1.field).key = {}",
 	"(j5.ext.v1.field).key = {format: FORMAT_UUID}",
 	"(j5.ext.v1.field).key = {format: FORMAT_ID62}",
